@@ -234,6 +234,47 @@ def hostile_names(r):
     return out
 
 
+def hostile_single_names(r):
+    """A SINGLE-file torrent with a hostile name, verified with --content / --base-directory naming an existing DIRECTORY: the
+    content root is what the user gave, the name must not be joined onto it (added after seeded change C13-17: `--content DIR`
+    became DIR/<name> for single-file torrents, lexically cleaned, so `../decoy/secret` left the directory)."""
+    out = []
+    for nm, at in ((b"../decoy/secret", [b"decoy", b"secret"]), (b"sub/../../decoy/secret", [b"decoy", b"secret"]),
+                   (S + b"/outside/secret", [b"outside", b"secret"]), (b"inner", None), (b"../the content/inner", None)):
+        for md5 in (False, True):
+            data = r.randbytes(r.randint(1, 40))
+            w = vfy.World(nm, r.choice([2, 5, 64]), [([], data)], False, md5)
+            tree = {b"the content": {b"bystander": b"x"}, b"decoy": {}, b"outside": {}}
+            if at is not None:
+                vfy.tree_set(tree, at, data)
+            else:
+                vfy.tree_set(tree, [b"the content", b"inner"], data)       # even inside the directory: --content names the file itself
+            out.append(vfy.mk_case("hostile single-file name %r with --content naming a directory" % nm.replace(S, b"<sandbox>"), w, "content", tree, b"the content", b"t.torrent"))
+    return out
+
+
+def overlong_component_cases(r):
+    """Ordinary names longer than any 16-bit quantity (65536 k + 2 bytes) that BEGIN with the bytes of an escape (`..decoysecret`,
+    cut into `..`, `decoy`, `secret` when the component boundaries are kept in 16 bits) - a plain, if absurd, name inside the root;
+    the decoy waits where the wrapped reading points (added after seeded change C13-16: FilePath stored as one string plus u16 end
+    offsets)."""
+    out = []
+    for k in (1, 2):
+        for mode in ("content", "default"):
+            first = b"..decoysecret" + b"q" * (65536 * k + 2 - 13)
+            p = 64
+            data = r.randbytes(r.randint(1, 30))
+            w = vfy.World(b"root", p, [([b"f0"], data)], True, r.random() < 0.5)
+            w.info[b"files"][0][b"path"] = [first, b"inner", b"leaf66"]
+            vfy.tree_del(w.content, [b"f0"])
+            tree, arg, inp = vfy.place(w, mode, r, True)
+            rootloc = {"content": [b"the content"], "default": [b"sub", b"root"]}[mode]
+            vfy.tree_set(tree, rootloc[:-1] + [b"decoy", b"secret"], data)
+            vfy.tree_set(tree, rootloc[:-1] + [b"decoy", b"inner", b"leaf66"], data)
+            out.append(vfy.mk_case("hostile shape: component of %d bytes beginning `..decoysecret`" % len(first), w, mode, tree, arg, inp))
+    return out
+
+
 def generate(ctx):
     r = ctx.rng
     cases = []
@@ -260,11 +301,13 @@ def generate(ctx):
                 cases.append(c)
         cases += hostile_names(r)
         cases += root_is_a_file_cases(r)
+        cases += hostile_single_names(r)
         for _ in range(12):                                          # ordinary torrents in between
             w = vfy.random_world(r, multi=True)
             mode = r.choice(["content", "base", "default", "stdin"])
             tree, arg, inp = vfy.place(w, mode, r, True)
             cases.append(vfy.mk_case("ordinary", w, mode, tree, arg, inp))
+    cases += overlong_component_cases(r)
     for c in cases:
         c["seed"] = r.randrange(1 << 30)
     return cases
